@@ -18,6 +18,7 @@ Template directives (lines starting with //@):
      //@loop_body_end <k>                  raw lines placed right before the '}' of loop k
      //@before <nth> <needle>              raw lines placed before the nth occurrence of needle in the item
      //@after <nth> <needle>               raw lines placed after  the nth occurrence of needle
+     //@arm_end <nth> <needle>             raw lines placed at the end of the `=> { .. }` block of the match arm containing needle
      //@sub <count> <regex> =>> <repl>      regex rewrite on the item text with an expected match count
      //@derive A, B                        replace the item's derive list (default: only Clone/Copy survive)
      //@keep_attrs                         keep all attributes (default: only whitelisted derives survive)
@@ -235,7 +236,16 @@ def render_extraction(ex, gsubs, canary=None):
             return toks[rustlex.match_close(toks, bo)].start - lo_off
 
     sig_end = body_open
-    for where, arg, lines in ex.inserts:
+    body_canary = (canary == 0 and item.kind == "fn" and body_open >= 0 and not ex.no_canary
+                   and not ex.header_only and not ex.sig_only_external)
+    inserts = ex.inserts
+    if body_canary:
+        # vacuity canary: keep signature + contract, replace the body by `assert(false)`: the only question
+        # asked is whether the preconditions / axioms in scope are contradictory
+        inserts = [t for t in ex.inserts if t[0] == "contract"]
+        text = text[:body_open + 1] + " assert(false); // CANARY %s\n vstd::pervasive::unreached() }" % ex.selector
+        body_close = len(text) - 1
+    for where, arg, lines in inserts:
         if where == "contract":
             if body_open < 0:
                 # declaration ending in ';'
@@ -254,6 +264,26 @@ def render_extraction(ex, gsubs, canary=None):
             add(loop(int(arg), "after_close"), lines)
         elif where == "loop_body_end":
             add(loop(int(arg), "before_close"), lines)
+        elif where == "arm_end":
+            # end of the `{ .. }` block of the match arm whose pattern contains the nth occurrence of needle
+            nth, needle = arg
+            pos = -1
+            start = 0
+            for _ in range(nth):
+                pos = text.find(needle, start)
+                if pos < 0:
+                    raise Undecided("anchor lost: arm %r (#%d) not found in %s %s" % (needle, nth, ex.src, ex.selector))
+                start = pos + 1
+            k = 0
+            while k < len(toks) and toks[k].start - lo_off < pos:
+                k += 1
+            # next '=>' then '{'
+            while k + 1 < len(toks) and not (toks[k].text == "=" and toks[k + 1].text == ">"):
+                k += 1
+            k += 2
+            if k >= len(toks) or toks[k].text != "{":
+                raise Undecided("anchor lost: arm %r has no block body in %s %s" % (needle, ex.src, ex.selector))
+            add(toks[rustlex.match_close(toks, k)].start - lo_off, lines)
         elif where in ("before", "after"):
             nth, needle = arg
             pos = -1
@@ -270,7 +300,7 @@ def render_extraction(ex, gsubs, canary=None):
     if canary is not None and item.kind == "fn" and body_open >= 0 and not ex.no_canary:
         cl = [Line("assert(false); // CANARY %s" % ex.selector, ("canary", ex.selector, 0))]
         if canary == 0:
-            add(body_open + 1, cl)
+            pass
         elif canary <= len(loops) and any(w in ("loop",) and int(a) == canary for w, a, _ in ex.inserts):
             add(loop(canary, "after_open"), cl)
 
@@ -377,6 +407,8 @@ def render_extraction(ex, gsubs, canary=None):
     joined = re.sub(r'\bhex!\(\s*"([0-9a-fA-F]*)"\s*\)', _hexlit, joined)
     joined = _rewrite_assert_eq(joined)
     for count, rx, repl, lno in list(gsubs) + ex.subs:
+        if body_canary:
+            count = None
         def _keep_lines(m, repl=repl):
             out = m.expand(repl)
             missing = m.group(0).count("\n") - out.count("\n")
@@ -579,7 +611,7 @@ def parse_template(path, seen=None):
                     elif name in ("loop", "loop_body_start", "after_loop", "loop_body_end"):
                         cur = []
                         ex.inserts.append((name, arg.strip(), cur))
-                    elif name in ("before", "after"):
+                    elif name in ("before", "after", "arm_end"):
                         nth, needle = arg.split(None, 1)
                         cur = []
                         ex.inserts.append((name, (int(nth), needle), cur))
